@@ -1,3 +1,1269 @@
+/-
+C11 — helper lemmas for the Scale / Impute model (`Model/C11.lean`).
+-/
 import CobaVerif.Model.C11
+import Mathlib.Tactic.Linarith
+import Mathlib.Tactic.Ring
+import Mathlib.Tactic.FieldSimp
+import Mathlib.Algebra.Order.Field.Rat
+import Mathlib.Data.List.Perm.Basic
+import Mathlib.Data.Rat.Floor
+
 namespace Coba.C11
+
+/-! ### min / max -/
+
+theorem foldl_min_le (xs : List Rat) (a : Rat) : xs.foldl min a ≤ a ∧ ∀ x ∈ xs, xs.foldl min a ≤ x := by
+  induction xs generalizing a with
+  | nil => simp
+  | cons b l ih =>
+    simp only [List.foldl_cons, List.mem_cons]
+    obtain ⟨h1, h2⟩ := ih (min a b)
+    refine ⟨le_trans h1 (min_le_left _ _), ?_⟩
+    rintro x (rfl | hx)
+    · exact le_trans h1 (min_le_right _ _)
+    · exact h2 x hx
+
+theorem foldl_min_mem (xs : List Rat) (a : Rat) : xs.foldl min a = a ∨ xs.foldl min a ∈ xs := by
+  induction xs generalizing a with
+  | nil => simp
+  | cons b l ih =>
+    simp only [List.foldl_cons, List.mem_cons]
+    rcases ih (min a b) with h | h
+    · rw [h]
+      rcases min_choice a b with h' | h'
+      · left; exact h'
+      · right; left; exact h'
+    · right; right; exact h
+
+theorem minL_isMin {xs : List Rat} {m : Rat} (h : minL xs = some m) : IsMin xs m := by
+  cases xs with
+  | nil => simp [minL] at h
+  | cons a l =>
+    simp only [minL, Option.some.injEq] at h
+    subst h
+    obtain ⟨h1, h2⟩ := foldl_min_le l a
+    refine ⟨?_, ?_⟩
+    · rcases foldl_min_mem l a with h | h
+      · rw [h]; exact List.mem_cons_self
+      · exact List.mem_cons_of_mem _ h
+    · intro x hx
+      rcases List.mem_cons.1 hx with rfl | hx
+      · exact h1
+      · exact h2 x hx
+
+theorem minL_isSome {xs : List Rat} (h : xs ≠ []) : ∃ m, minL xs = some m := by
+  cases xs with
+  | nil => exact absurd rfl h
+  | cons a l => exact ⟨_, rfl⟩
+
+theorem foldl_max_ge (xs : List Rat) (a : Rat) : a ≤ xs.foldl max a ∧ ∀ x ∈ xs, x ≤ xs.foldl max a := by
+  induction xs generalizing a with
+  | nil => simp
+  | cons b l ih =>
+    simp only [List.foldl_cons, List.mem_cons]
+    obtain ⟨h1, h2⟩ := ih (max a b)
+    refine ⟨le_trans (le_max_left _ _) h1, ?_⟩
+    rintro x (rfl | hx)
+    · exact le_trans (le_max_right _ _) h1
+    · exact h2 x hx
+
+theorem foldl_max_mem (xs : List Rat) (a : Rat) : xs.foldl max a = a ∨ xs.foldl max a ∈ xs := by
+  induction xs generalizing a with
+  | nil => simp
+  | cons b l ih =>
+    simp only [List.foldl_cons, List.mem_cons]
+    rcases ih (max a b) with h | h
+    · rw [h]
+      rcases max_choice a b with h' | h'
+      · left; exact h'
+      · right; left; exact h'
+    · right; right; exact h
+
+theorem maxL_isMax {xs : List Rat} {m : Rat} (h : maxL xs = some m) : IsMax xs m := by
+  cases xs with
+  | nil => simp [maxL] at h
+  | cons a l =>
+    simp only [maxL, Option.some.injEq] at h
+    subst h
+    obtain ⟨h1, h2⟩ := foldl_max_ge l a
+    refine ⟨?_, ?_⟩
+    · rcases foldl_max_mem l a with h | h
+      · rw [h]; exact List.mem_cons_self
+      · exact List.mem_cons_of_mem _ h
+    · intro x hx
+      rcases List.mem_cons.1 hx with rfl | hx
+      · exact h1
+      · exact h2 x hx
+
+theorem maxL_isSome {xs : List Rat} (h : xs ≠ []) : ∃ m, maxL xs = some m := by
+  cases xs with
+  | nil => exact absurd rfl h
+  | cons a l => exact ⟨_, rfl⟩
+
+/-! ### sorting -/
+
+theorem insertSorted_perm (a : Rat) (l : List Rat) : (insertSorted a l).Perm (a :: l) := by
+  induction l with
+  | nil => simp [insertSorted]
+  | cons b l ih =>
+    simp only [insertSorted]
+    split
+    · exact List.Perm.refl _
+    · exact (List.Perm.cons b ih).trans (List.Perm.swap a b l)
+
+theorem isort_perm (l : List Rat) : (isort l).Perm l := by
+  induction l with
+  | nil => simp [isort]
+  | cons a l ih =>
+    simp only [isort]
+    exact (insertSorted_perm a (isort l)).trans (List.Perm.cons a ih)
+
+theorem insertSorted_sorted (a : Rat) (l : List Rat) (h : Sorted l) : Sorted (insertSorted a l) := by
+  induction l with
+  | nil => simp [insertSorted, Sorted]
+  | cons b l ih =>
+    simp only [insertSorted]
+    obtain ⟨hb, hl⟩ := h
+    split
+    · rename_i hab
+      refine ⟨?_, hb, hl⟩
+      intro c hc
+      rcases List.mem_cons.1 hc with rfl | hc
+      · exact hab
+      · exact le_trans hab (hb c hc)
+    · rename_i hab
+      refine ⟨?_, ih hl⟩
+      intro c hc
+      have := (insertSorted_perm a l).mem_iff.1 hc
+      rcases List.mem_cons.1 this with rfl | hc'
+      · exact le_of_lt (not_le.1 hab)
+      · exact hb c hc'
+
+theorem isort_sorted (l : List Rat) : Sorted (isort l) := by
+  induction l with
+  | nil => simp [isort, Sorted]
+  | cons a l ih => exact insertSorted_sorted a _ ih
+
+theorem isort_length (l : List Rat) : (isort l).length = l.length := (isort_perm l).length_eq
+
+/-- a sorted list is monotone in the index -/
+theorem Sorted.get_le {s : List Rat} (h : Sorted s) {i j : Nat} {a b : Rat}
+    (hij : i ≤ j) (ha : s[i]? = some a) (hb : s[j]? = some b) : a ≤ b := by
+  induction s generalizing i j with
+  | nil => simp at ha
+  | cons c l ih =>
+    obtain ⟨hc, hl⟩ := h
+    cases i with
+    | zero =>
+      simp at ha; subst ha
+      cases j with
+      | zero => simp at hb; subst hb; exact le_refl _
+      | succ j =>
+        simp at hb
+        exact hc b (List.mem_of_getElem? hb)
+    | succ i =>
+      cases j with
+      | zero => omega
+      | succ j =>
+        simp at ha hb
+        exact ih hl (by omega) ha hb
+
+/-! ### median -/
+
+theorem median_isMedian {xs : List Rat} {m : Rat} (h : median xs = some m) : IsMedian xs m := by
+  refine ⟨isort xs, isort_perm xs, isort_sorted xs, ?_⟩
+  unfold median at h
+  simp only at h
+  split at h
+  · simp at h
+  · split at h
+    · rename_i h1
+      exact Or.inl ⟨h1, h⟩
+    · rename_i h0 h1
+      right
+      refine ⟨by omega, ?_⟩
+      split at h
+      · rename_i a b ha hb
+        simp only [Option.some.injEq] at h
+        exact ⟨a, b, ha, hb, h.symm⟩
+      · simp at h
+
+theorem median_isSome {xs : List Rat} (h : xs ≠ []) : ∃ m, median xs = some m := by
+  have hl : (isort xs).length ≠ 0 := by
+    rw [isort_length]; exact fun h0 => h (List.length_eq_zero_iff.1 h0)
+  unfold median
+  simp only [hl, if_false]
+  split
+  · have : (isort xs).length / 2 < (isort xs).length := by omega
+    exact ⟨_, List.getElem?_eq_getElem this⟩
+  · have h1 : (isort xs).length / 2 - 1 < (isort xs).length := by omega
+    have h2 : (isort xs).length / 2 < (isort xs).length := by omega
+    rw [List.getElem?_eq_getElem h1, List.getElem?_eq_getElem h2]
+    exact ⟨_, rfl⟩
+
+
+/-! ### percentile / iqr -/
+
+theorem rat_floor_eq (q : Rat) : q.floor = ⌊q⌋ := rfl
+
+theorem percentile_interp (s : List Rat) (p : Rat) (hn : 2 ≤ s.length) (hp0 : 0 ≤ p) (hp1 : p ≤ 1) :
+    ∃ q, percentile s p = some q ∧ Interp s p q := by
+  have hlen : (2 : Rat) ≤ (s.length : Rat) := by exact_mod_cast hn
+  unfold percentile
+  split
+  · simp at hn
+  · by_cases h0 : p = 0
+    · subst h0
+      simp only [if_true]
+      have : 0 < s.length := by omega
+      refine ⟨s[0], by simp [List.head?_eq_getElem?], ?_⟩
+      unfold Interp
+      simp only [zero_mul]
+      refine ⟨s[0], by simp [rat_floor_eq], Or.inl ⟨by simp [rat_floor_eq], rfl⟩⟩
+    · simp only [h0, if_false]
+      by_cases h1 : p = 1
+      · subst h1
+        simp only [if_true]
+        have hl : s.length - 1 < s.length := by omega
+        refine ⟨s[s.length - 1], by rw [List.getLast?_eq_getElem?]; exact List.getElem?_eq_getElem hl, ?_⟩
+        unfold Interp
+        have hc : (1 : Rat) * ((s.length : Rat) - 1) = ((s.length - 1 : Nat) : Rat) := by
+          rw [one_mul, Nat.cast_sub (by omega)]; simp
+        simp only [hc, rat_floor_eq, Int.floor_natCast, Int.toNat_natCast]
+        exact ⟨s[s.length - 1], List.getElem?_eq_getElem hl, Or.inl ⟨trivial, rfl⟩⟩
+      · simp only [h1, if_false]
+        have hp0' : 0 < p := lt_of_le_of_ne hp0 (Ne.symm h0)
+        have hp1' : p < 1 := lt_of_le_of_ne hp1 h1
+        set h : Rat := p * ((s.length : Rat) - 1) with hh
+        have hpos : 0 ≤ h := by
+          have : (0 : Rat) ≤ (s.length : Rat) - 1 := by linarith
+          exact mul_nonneg hp0 this
+        have hlt : h < (s.length : Rat) - 1 := by
+          have : (0 : Rat) < (s.length : Rat) - 1 := by linarith
+          calc h = p * ((s.length : Rat) - 1) := rfl
+            _ < 1 * ((s.length : Rat) - 1) := by exact mul_lt_mul_of_pos_right hp1' this
+            _ = (s.length : Rat) - 1 := one_mul _
+        have hfl : 0 ≤ ⌊h⌋ := Int.floor_nonneg.2 hpos
+        have hI : ((h.floor.toNat : Nat) : Rat) = ((⌊h⌋ : Int) : Rat) := by
+          rw [rat_floor_eq]
+          have : ((⌊h⌋.toNat : Nat) : Int) = ⌊h⌋ := Int.toNat_of_nonneg hfl
+          exact_mod_cast this
+        have hIle : ((h.floor.toNat : Nat) : Rat) ≤ h := by rw [hI]; exact Int.floor_le h
+        have hIlt : h.floor.toNat + 1 < s.length := by
+          have : ((h.floor.toNat : Nat) : Rat) < (s.length : Rat) - 1 := lt_of_le_of_lt hIle hlt
+          have : ((h.floor.toNat + 1 : Nat) : Rat) < (s.length : Rat) := by push_cast; linarith
+          exact_mod_cast this
+        have hI0 : h.floor.toNat < s.length := by omega
+        by_cases he : h = ((h.floor.toNat : Nat) : Rat)
+        · simp only [he.symm, if_true]
+          refine ⟨s[h.floor.toNat], List.getElem?_eq_getElem hI0, ?_⟩
+          unfold Interp
+          exact ⟨s[h.floor.toNat], List.getElem?_eq_getElem hI0, Or.inl ⟨he, rfl⟩⟩
+        · simp only [if_neg he]
+          rw [List.getElem?_eq_getElem hI0, List.getElem?_eq_getElem hIlt]
+          refine ⟨_, rfl, ?_⟩
+          unfold Interp
+          refine ⟨s[h.floor.toNat], List.getElem?_eq_getElem hI0, Or.inr ⟨s[h.floor.toNat + 1], List.getElem?_eq_getElem hIlt, ?_⟩⟩
+          ring
+
+
+theorem percentile_isQuantile (xs : List Rat) (p : Rat) (hn : 2 ≤ xs.length) (hp0 : 0 ≤ p) (hp1 : p ≤ 1) :
+    ∃ q, percentile (isort xs) p = some q ∧ IsQuantile xs p q := by
+  obtain ⟨q, h1, h2⟩ := percentile_interp (isort xs) p (by rw [isort_length]; exact hn) hp0 hp1
+  exact ⟨q, h1, isort xs, isort_perm xs, isort_sorted xs, h2⟩
+
+theorem iqr_sound {xs : List Rat} {d : Rat} (h : iqr xs = some d) :
+    (xs.length ≤ 1 ∧ d = 0) ∨
+    (2 ≤ xs.length ∧ ∃ a b, IsQuantile xs (1/4) a ∧ IsQuantile xs (3/4) b ∧ d = b - a) := by
+  unfold iqr at h
+  split at h
+  · rename_i hl
+    left; exact ⟨hl, by simpa using h.symm⟩
+  · rename_i hl
+    have hn : 2 ≤ xs.length := by omega
+    right
+    obtain ⟨a, ha, hqa⟩ := percentile_isQuantile xs (1/4) hn (by norm_num) (by norm_num)
+    obtain ⟨b, hb, hqb⟩ := percentile_isQuantile xs (3/4) hn (by norm_num) (by norm_num)
+    rw [ha, hb] at h
+    simp only [Option.some.injEq] at h
+    exact ⟨hn, a, b, hqa, hqb, h.symm⟩
+
+theorem iqr_isSome (xs : List Rat) : ∃ d, iqr xs = some d := by
+  unfold iqr
+  split
+  · exact ⟨0, rfl⟩
+  · rename_i hl
+    have hn : 2 ≤ xs.length := by omega
+    obtain ⟨a, ha, _⟩ := percentile_isQuantile xs (1/4) hn (by norm_num) (by norm_num)
+    obtain ⟨b, hb, _⟩ := percentile_isQuantile xs (3/4) hn (by norm_num) (by norm_num)
+    rw [ha, hb]
+    exact ⟨_, rfl⟩
+
+theorem mean_sound {xs : List Rat} {m : Rat} (h : mean xs = some m) :
+    xs ≠ [] ∧ m = sumL xs / (xs.length : Rat) := by
+  cases xs with
+  | nil => simp [mean] at h
+  | cons a l =>
+    simp only [mean, Option.some.injEq] at h
+    exact ⟨by simp, h.symm⟩
+
+theorem mean_isSome {xs : List Rat} (h : xs ≠ []) : ∃ m, mean xs = some m := by
+  cases xs with
+  | nil => exact absurd rfl h
+  | cons a l => exact ⟨_, rfl⟩
+
+theorem shiftValue_sound {sh : Shift} {xs : List Rat} {s : Rat} (h : shiftValue sh xs = some s) :
+    ShiftStat sh xs s := by
+  cases sh with
+  | num a => simp only [shiftValue, Option.some.injEq] at h; exact h.symm
+  | min =>
+    simp only [shiftValue, Option.map_eq_some_iff] at h
+    obtain ⟨m, hm, rfl⟩ := h
+    exact ⟨m, minL_isMin hm, rfl⟩
+  | mean =>
+    simp only [shiftValue, Option.map_eq_some_iff] at h
+    obtain ⟨m, hm, rfl⟩ := h
+    obtain ⟨h1, h2⟩ := mean_sound hm
+    exact ⟨h1, by rw [h2]⟩
+  | median =>
+    simp only [shiftValue, Option.map_eq_some_iff] at h
+    obtain ⟨m, hm, rfl⟩ := h
+    exact ⟨m, median_isMedian hm, rfl⟩
+
+theorem shiftValue_isSome (sh : Shift) (xs : List Rat)
+    (h : match sh with | .num _ => True | _ => xs ≠ []) : ∃ s, shiftValue sh xs = some s := by
+  cases sh with
+  | num a => exact ⟨a, rfl⟩
+  | min => obtain ⟨m, hm⟩ := minL_isSome h; exact ⟨-m, by simp [shiftValue, hm]⟩
+  | mean => obtain ⟨m, hm⟩ := mean_isSome h; exact ⟨-m, by simp [shiftValue, hm]⟩
+  | median => obtain ⟨m, hm⟩ := median_isSome h; exact ⟨-m, by simp [shiftValue, hm]⟩
+
+theorem scaleValue_sound {sd : List Rat → Rat} {sc : Scl} {xs : List Rat} {s f : Rat}
+    (h : scaleValue sd sc xs s = some f) : ScaleStat sd sc xs s f := by
+  simp only [scaleValue, Option.map_eq_some_iff] at h
+  obtain ⟨nd, hnd, rfl⟩ := h
+  cases sc with
+  | num b =>
+    simp only [scaleNumDen, Option.some.injEq] at hnd
+    subst hnd
+    refine ⟨1, rfl, ?_⟩
+    simp only [guardDiv]
+    norm_num
+  | minmax =>
+    simp only [scaleNumDen] at hnd
+    split at hnd
+    · rename_i mx mn hmx hmn
+      simp only [Option.some.injEq] at hnd
+      subst hnd
+      refine ⟨mx - mn, ⟨mn, mx, minL_isMin hmn, maxL_isMax hmx, rfl⟩, ?_⟩
+      simp [guardDiv]
+    · simp at hnd
+  | std =>
+    simp only [scaleNumDen] at hnd
+    split at hnd
+    · simp at hnd
+    · rename_i hl
+      simp only [Option.some.injEq] at hnd
+      subst hnd
+      refine ⟨sd xs, ⟨by omega, rfl⟩, ?_⟩
+      simp [guardDiv]
+  | iqr =>
+    simp only [scaleNumDen, Option.map_eq_some_iff] at hnd
+    obtain ⟨d, hd, rfl⟩ := hnd
+    refine ⟨d, iqr_sound hd, ?_⟩
+    simp [guardDiv]
+  | maxabs =>
+    simp only [scaleNumDen, Option.map_eq_some_iff] at hnd
+    obtain ⟨d, hd, rfl⟩ := hnd
+    refine ⟨d, maxL_isMax hd, ?_⟩
+    simp [guardDiv]
+
+theorem scaleValue_isSome (sd : List Rat → Rat) (sc : Scl) (xs : List Rat) (s : Rat)
+    (h : match sc with | .num _ => True | .iqr => True | .std => 2 ≤ xs.length | _ => xs ≠ []) :
+    ∃ f, scaleValue sd sc xs s = some f := by
+  cases sc with
+  | num b => exact ⟨guardDiv (b, 1), by simp [scaleValue, scaleNumDen]⟩
+  | minmax =>
+    obtain ⟨mx, hmx⟩ := maxL_isSome h
+    obtain ⟨mn, hmn⟩ := minL_isSome h
+    exact ⟨guardDiv (1, mx - mn), by simp [scaleValue, scaleNumDen, hmx, hmn]⟩
+  | std =>
+    have : ¬ xs.length < 2 := by simpa using h
+    exact ⟨guardDiv (1, sd xs), by simp [scaleValue, scaleNumDen, this]⟩
+  | iqr =>
+    obtain ⟨d, hd⟩ := iqr_isSome xs
+    exact ⟨guardDiv (1, d), by simp [scaleValue, scaleNumDen, hd]⟩
+  | maxabs =>
+    have : xs.map (fun v => absR (v + s)) ≠ [] := by simpa using h
+    obtain ⟨d, hd⟩ := maxL_isSome this
+    exact ⟨guardDiv (1, d), by simp [scaleValue, scaleNumDen, hd]⟩
+
+/-- soundness of the fitted parameters: they are the documented statistics of the window -/
+theorem fit_sound {sd : List Rat → Rat} {cfg : Cfg} {w : List Val} {s f : Rat}
+    (h : fit sd cfg w = some (s, f)) :
+    ShiftStat cfg.shift (nums w) s ∧ ScaleStat sd cfg.scale (nums w) s f := by
+  unfold fit at h
+  split at h
+  · simp at h
+  · split at h
+    · simp at h
+    · rename_i sh hsh
+      split at h
+      · simp at h
+      · rename_i sc hsc
+        simp only [Option.some.injEq, Prod.mk.injEq] at h
+        obtain ⟨rfl, rfl⟩ := h
+        exact ⟨shiftValue_sound hsh, scaleValue_sound hsc⟩
+
+/-- completeness: on a column without strings whose statistics are defined, parameters exist -/
+theorem fit_isSome (sd : List Rat → Rat) (cfg : Cfg) (w : List Val)
+    (hstr : w.any Val.isStr = false) (hdef : StatsDefined cfg w) :
+    ∃ s f, fit sd cfg w = some (s, f) := by
+  obtain ⟨h1, h2⟩ := hdef
+  obtain ⟨s, hs⟩ := shiftValue_isSome cfg.shift (nums w) h1
+  obtain ⟨f, hf⟩ := scaleValue_isSome sd cfg.scale (nums w) s (by
+    cases hsc : cfg.scale <;> simp_all)
+  refine ⟨s, f, ?_⟩
+  unfold fit
+  simp [hstr, hs, hf]
+
+
+/-! ### Scale: cells -/
+
+theorem applyVal_nonnum (p : Rat × Rat) (v : Val) (h : v.isNum = false) : applyVal p v = v := by
+  cases v <;> simp_all [applyVal, Val.isNum]
+
+theorem applyOpt_nonnum (p : Option (Rat × Rat)) (v : Val) (h : v.isNum = false) : applyOpt p v = v := by
+  cases p with
+  | none => rfl
+  | some p => exact applyVal_nonnum p v h
+
+/-- what a cell becomes under fitted parameters meets the cell specification -/
+theorem applyOpt_spec (sd : List Rat → Rat) (cfg : Cfg) (w : List Val) (v : Val)
+    (hstr : w.any Val.isStr = false) (hdef : StatsDefined cfg w) :
+    ScaleCellSpec sd cfg w v (applyOpt (fit sd cfg w) v) := by
+  obtain ⟨s, f, hfit⟩ := fit_isSome sd cfg w hstr hdef
+  obtain ⟨h1, h2⟩ := fit_sound hfit
+  rw [hfit]
+  cases v with
+  | num x => exact ⟨s, f, h1, h2, rfl⟩
+  | nan => rfl
+  | nil => rfl
+  | str t => rfl
+
+theorem scaleDense_cell (sd : List Rat → Rat) (cfg : Cfg) (rows : List (List Val)) (first : List Val)
+    (hfirst : rows.head? = some first) (i k : Nat) :
+    denseCell (scaleDense sd cfg rows) i k =
+      (denseCell rows i k).map (applyOpt (if potDense first k then fit sd cfg (col k (window cfg.usingN rows)) else none)) := by
+  cases rows with
+  | nil => simp at hfirst
+  | cons f rest =>
+    simp only [List.head?_cons, Option.some.injEq] at hfirst
+    subst hfirst
+    simp only [denseCell, scaleDense, List.getElem?_map]
+    cases (f :: rest)[i]? with
+    | none => rfl
+    | some row => simp [denseRow, List.getElem?_mapIdx]
+
+theorem scale_dense_eq_spec' (sd : List Rat → Rat) (cfg : Cfg) (rows : List (List Val)) (first : List Val)
+    (i k : Nat) (v : Val)
+    (hfirst : rows.head? = some first) (hv : denseCell rows i k = some v)
+    (hpot : potDense first k = true)
+    (hstr : (col k (window cfg.usingN rows)).any Val.isStr = false)
+    (hdef : StatsDefined cfg (col k (window cfg.usingN rows))) :
+    ∃ out, denseCell (scaleDense sd cfg rows) i k = some out ∧
+      ScaleCellSpec sd cfg (col k (window cfg.usingN rows)) v out := by
+  rw [scaleDense_cell sd cfg rows first hfirst, hv, hpot]
+  exact ⟨_, rfl, applyOpt_spec sd cfg _ v hstr hdef⟩
+
+theorem scale_dense_untouched' (sd : List Rat → Rat) (cfg : Cfg) (rows : List (List Val)) (i k : Nat) (v : Val)
+    (hv : denseCell rows i k = some v) (hnn : v.isNum = false) :
+    denseCell (scaleDense sd cfg rows) i k = some v := by
+  cases rows with
+  | nil => simp [denseCell] at hv
+  | cons f rest =>
+    rw [scaleDense_cell sd cfg (f :: rest) f rfl, hv]
+    simp [applyOpt_nonnum _ v hnn]
+
+theorem scale_dense_nonpotential' (sd : List Rat → Rat) (cfg : Cfg) (rows : List (List Val)) (first : List Val)
+    (i k : Nat) (hfirst : rows.head? = some first) (hpot : potDense first k = false) :
+    denseCell (scaleDense sd cfg rows) i k = denseCell rows i k := by
+  rw [scaleDense_cell sd cfg rows first hfirst, hpot]
+  cases denseCell rows i k <;> simp [applyOpt]
+
+theorem scale_dense_shape' (sd : List Rat → Rat) (cfg : Cfg) (rows : List (List Val)) :
+    (scaleDense sd cfg rows).length = rows.length ∧
+    ∀ i : Nat, ((scaleDense sd cfg rows)[i]?).map List.length = (rows[i]?).map List.length := by
+  cases rows with
+  | nil => simp [scaleDense]
+  | cons f rest =>
+    refine ⟨by simp [scaleDense], fun i => ?_⟩
+    simp only [scaleDense, List.getElem?_map]
+    cases (f :: rest)[i]? <;> simp [denseRow]
+
+/-! scalar contexts -/
+
+theorem scale_scalar_eq_spec' (sd : List Rat → Rat) (cfg : Cfg) (rows : List Val) (i : Nat) (v : Val)
+    (hv : rows[i]? = some v)
+    (hstr : (window cfg.usingN rows).any Val.isStr = false)
+    (hdef : StatsDefined cfg (window cfg.usingN rows)) :
+    ∃ out, (scaleScalar sd cfg rows)[i]? = some out ∧ ScaleCellSpec sd cfg (window cfg.usingN rows) v out := by
+  simp only [scaleScalar, List.getElem?_map, hv, Option.map_some]
+  exact ⟨_, rfl, applyOpt_spec sd cfg _ v hstr hdef⟩
+
+theorem scale_scalar_untouched' (sd : List Rat → Rat) (cfg : Cfg) (rows : List Val) (i : Nat) (v : Val)
+    (hv : rows[i]? = some v) (hnn : v.isNum = false) :
+    (scaleScalar sd cfg rows)[i]? = some v := by
+  simp [scaleScalar, List.getElem?_map, hv, applyOpt_nonnum _ v hnn]
+
+theorem scale_scalar_length' (sd : List Rat → Rat) (cfg : Cfg) (rows : List Val) :
+    (scaleScalar sd cfg rows).length = rows.length := by simp [scaleScalar]
+
+/-! sparse contexts -/
+
+theorem lookup_map_val {g : String → Val → Val} (c : SCtx) (k : String) :
+    (c.map (fun kv => (kv.1, g kv.1 kv.2))).lookup k = (c.lookup k).map (g k) := by
+  induction c with
+  | nil => rfl
+  | cons kv c ih =>
+    obtain ⟨a, b⟩ := kv
+    simp only [List.map_cons, List.lookup]
+    cases h : k == a with
+    | true =>
+      have : k = a := by simpa using h
+      subst this
+      simp
+    | false => simpa using ih
+
+theorem scaleSparse_ok (sd : List Rat → Rat) (cfg : Cfg) (rows : List SCtx) (first : SCtx)
+    (hfirst : rows.head? = some first) (h0 : cfg.shift = .num 0) :
+    scaleSparse sd cfg rows = .ok (rows.map (sparseRow sd cfg first (window cfg.usingN rows))) := by
+  cases rows with
+  | nil => simp at hfirst
+  | cons f rest =>
+    simp only [List.head?_cons, Option.some.injEq] at hfirst
+    subst hfirst
+    simp [scaleSparse, h0]
+
+theorem scaleSparse_cell (sd : List Rat → Rat) (cfg : Cfg) (rows : List SCtx) (first : SCtx)
+    (hfirst : rows.head? = some first) (h0 : cfg.shift = .num 0) (i : Nat) (k : String) :
+    ∃ out, scaleSparse sd cfg rows = .ok out ∧
+      sparseCell out i k = (sparseCell rows i k).map
+        (applyOpt (if potSparse first (window cfg.usingN rows) k
+          then fit sd cfg ((window cfg.usingN rows).map (getD0 k)) else none)) := by
+  refine ⟨_, scaleSparse_ok sd cfg rows first hfirst h0, ?_⟩
+  simp only [sparseCell, List.getElem?_map]
+  cases rows[i]? with
+  | none => rfl
+  | some c =>
+    simp only [Option.map_some, Option.bind_some]
+    exact lookup_map_val (g := fun k v => applyOpt (if potSparse first (window cfg.usingN rows) k
+          then fit sd cfg ((window cfg.usingN rows).map (getD0 k)) else none) v) c k
+
+theorem scale_sparse_eq_spec' (sd : List Rat → Rat) (cfg : Cfg) (rows : List SCtx) (first : SCtx)
+    (i : Nat) (k : String) (v : Val)
+    (hfirst : rows.head? = some first) (h0 : cfg.shift = .num 0)
+    (hv : sparseCell rows i k = some v)
+    (hpot : potSparse first (window cfg.usingN rows) k = true)
+    (hstr : ((window cfg.usingN rows).map (getD0 k)).any Val.isStr = false)
+    (hdef : StatsDefined cfg ((window cfg.usingN rows).map (getD0 k))) :
+    ∃ outs out, scaleSparse sd cfg rows = .ok outs ∧ sparseCell outs i k = some out ∧
+      ScaleCellSpec sd cfg ((window cfg.usingN rows).map (getD0 k)) v out := by
+  obtain ⟨outs, h1, h2⟩ := scaleSparse_cell sd cfg rows first hfirst h0 i k
+  rw [hv, hpot] at h2
+  exact ⟨outs, _, h1, h2, applyOpt_spec sd cfg _ v hstr hdef⟩
+
+theorem scale_sparse_untouched' (sd : List Rat → Rat) (cfg : Cfg) (rows : List SCtx) (first : SCtx)
+    (i : Nat) (k : String) (v : Val)
+    (hfirst : rows.head? = some first) (h0 : cfg.shift = .num 0)
+    (hv : sparseCell rows i k = some v) (hnn : v.isNum = false) :
+    ∃ outs, scaleSparse sd cfg rows = .ok outs ∧ sparseCell outs i k = some v := by
+  obtain ⟨outs, h1, h2⟩ := scaleSparse_cell sd cfg rows first hfirst h0 i k
+  rw [hv] at h2
+  exact ⟨outs, h1, by simp [h2, applyOpt_nonnum _ v hnn]⟩
+
+theorem scale_sparse_keys' (sd : List Rat → Rat) (cfg : Cfg) (rows : List SCtx) (first : SCtx)
+    (hfirst : rows.head? = some first) (h0 : cfg.shift = .num 0) :
+    ∃ outs, scaleSparse sd cfg rows = .ok outs ∧
+      outs.map (fun c => c.map Prod.fst) = rows.map (fun c => c.map Prod.fst) := by
+  refine ⟨_, scaleSparse_ok sd cfg rows first hfirst h0, ?_⟩
+  simp [sparseRow, List.map_map, Function.comp_def]
+
+theorem scale_sparse_rejects' (sd : List Rat → Rat) (cfg : Cfg) (rows : List SCtx)
+    (hne : rows ≠ []) (h0 : cfg.shift ≠ .num 0) : scaleSparse sd cfg rows = .error .cobaException := by
+  cases rows with
+  | nil => exact absurd rfl hne
+  | cons f rest => simp [scaleSparse, h0]
+
+
+/-! ### the fitting window -/
+
+theorem window_none' {α} (rows : List α) : window none rows = rows := rfl
+
+theorem window_ge' {α} (n : Nat) (rows : List α) (h : rows.length ≤ n) : window (some n) rows = rows :=
+  List.take_of_length_le h
+
+theorem window_append' {α} (w rest : List α) : window (some w.length) (w ++ rest) = w := by
+  simp [window]
+
+theorem window_map {α β} (f : α → β) (u : Option Nat) (rows : List α) :
+    window u (rows.map f) = (window u rows).map f := by
+  cases u with
+  | none => rfl
+  | some n => simp [window, List.map_take]
+
+/-- `Scale` with `using = len(w)`: the result on `w ++ rest` is the row function fitted on `w` alone,
+applied to every interaction (so the statistics do not depend on `rest`) -/
+theorem scaleDense_window' (sd : List Rat → Rat) (cfg : Cfg) (first : List Val) (w rest : List (List Val))
+    (hw : w.head? = some first) (hu : cfg.usingN = some w.length) :
+    scaleDense sd cfg (w ++ rest) = (w ++ rest).map (denseRow sd cfg first w) := by
+  cases w with
+  | nil => simp at hw
+  | cons f w' =>
+    simp only [List.head?_cons, Option.some.injEq] at hw
+    subst hw
+    have : window cfg.usingN (f :: w' ++ rest) = f :: w' := by rw [hu]; exact window_append' (f :: w') rest
+    simp only [List.cons_append] at this ⊢
+    simp [scaleDense, this]
+
+theorem scaleDense_using_none' (sd : List Rat → Rat) (cfg : Cfg) (first : List Val) (rows : List (List Val))
+    (hf : rows.head? = some first) (hu : cfg.usingN = none) :
+    scaleDense sd cfg rows = rows.map (denseRow sd cfg first rows) := by
+  cases rows with
+  | nil => simp at hf
+  | cons f r =>
+    simp only [List.head?_cons, Option.some.injEq] at hf
+    subst hf
+    simp [scaleDense, hu, window]
+
+theorem scaleDense_using_ge' (sd : List Rat → Rat) (sh : Shift) (sc : Scl) (n : Nat) (rows : List (List Val))
+    (h : rows.length ≤ n) :
+    scaleDense sd ⟨sh, sc, some n⟩ rows = scaleDense sd ⟨sh, sc, none⟩ rows := by
+  cases rows with
+  | nil => rfl
+  | cons f r =>
+    have ht : List.take n (f :: r) = f :: r := List.take_of_length_le h
+    simp only [scaleDense, window, ht]
+    rfl
+
+theorem scaleScalar_using_ge' (sd : List Rat → Rat) (sh : Shift) (sc : Scl) (n : Nat) (rows : List Val)
+    (h : rows.length ≤ n) :
+    scaleScalar sd ⟨sh, sc, some n⟩ rows = scaleScalar sd ⟨sh, sc, none⟩ rows := by
+  have ht : List.take n rows = rows := List.take_of_length_le h
+  simp only [scaleScalar, window, ht]
+  rfl
+
+theorem scaleScalar_window' (sd : List Rat → Rat) (cfg : Cfg) (w rest : List Val)
+    (hu : cfg.usingN = some w.length) :
+    scaleScalar sd cfg (w ++ rest) = (w ++ rest).map (applyOpt (fit sd cfg w)) := by
+  simp only [scaleScalar, hu, window_append']
+
+theorem scaleSparse_using_ge' (sd : List Rat → Rat) (sh : Shift) (sc : Scl) (n : Nat) (rows : List SCtx)
+    (h : rows.length ≤ n) :
+    scaleSparse sd ⟨sh, sc, some n⟩ rows = scaleSparse sd ⟨sh, sc, none⟩ rows := by
+  cases rows with
+  | nil => rfl
+  | cons f r =>
+    have ht : List.take n (f :: r) = f :: r := List.take_of_length_le h
+    simp only [scaleSparse, window, ht]
+    rfl
+
+theorem scaleSparse_window' (sd : List Rat → Rat) (cfg : Cfg) (first : SCtx) (w rest : List SCtx)
+    (hw : w.head? = some first) (hu : cfg.usingN = some w.length) (h0 : cfg.shift = .num 0) :
+    scaleSparse sd cfg (w ++ rest) = .ok ((w ++ rest).map (sparseRow sd cfg first w)) := by
+  cases w with
+  | nil => simp at hw
+  | cons f w' =>
+    simp only [List.head?_cons, Option.some.injEq] at hw
+    subst hw
+    have : window cfg.usingN (f :: w' ++ rest) = f :: w' := by rw [hu]; exact window_append' (f :: w') rest
+    simp only [List.cons_append] at this ⊢
+    simp [scaleSparse, this, h0]
+
+/-! ### the three kinds of context agree -/
+
+theorem col_zero_singletons (ws : List Val) : col 0 (ws.map (fun v => [v])) = ws := by
+  induction ws with
+  | nil => rfl
+  | cons a l ih => simp [col] at ih ⊢
+
+/-- scalar contexts behave like dense contexts with one feature -/
+theorem scale_scalar_dense_agree' (sd : List Rat → Rat) (cfg : Cfg) (rows : List Val) (hu : cfg.usingN ≠ some 0) :
+    scaleDense sd cfg (rows.map (fun v => [v])) = (scaleScalar sd cfg rows).map (fun v => [v]) := by
+  cases rows with
+  | nil => rfl
+  | cons v0 rest =>
+    have hwin : window cfg.usingN ((v0 :: rest).map (fun v => [v])) = (window cfg.usingN (v0 :: rest)).map (fun v => [v]) :=
+      window_map _ _ _
+    simp only [List.map_cons] at hwin
+    simp only [scaleDense, scaleScalar, List.map_cons, List.map_map, hwin]
+    have hcol : col 0 ((window cfg.usingN (v0 :: rest)).map (fun v => [v])) = window cfg.usingN (v0 :: rest) :=
+      col_zero_singletons _
+    have key : ∀ v : Val, denseRow sd cfg [v0] ((window cfg.usingN (v0 :: rest)).map (fun v => [v])) [v]
+        = [applyOpt (fit sd cfg (window cfg.usingN (v0 :: rest))) v] := by
+      intro v
+      simp only [denseRow, List.mapIdx_cons, List.mapIdx_nil, hcol]
+      by_cases hp : potDense [v0] 0 = true
+      · simp [hp]
+      · have hs : v0.isStr = true := by
+          cases v0 <;> simp_all [potDense, Val.numOrNil, Val.isStr]
+        have hmem : v0 ∈ window cfg.usingN (v0 :: rest) := by
+          cases hn : cfg.usingN with
+          | none => simp [window]
+          | some n =>
+            cases n with
+            | zero => exact absurd hn hu
+            | succ n => simp [window]
+        have : (window cfg.usingN (v0 :: rest)).any Val.isStr = true :=
+          List.any_eq_true.2 ⟨v0, hmem, hs⟩
+        simp [hp, fit, this, applyOpt]
+    simp [Function.comp_def, key]
+
+
+/-! ### Impute: statistics -/
+
+theorem modeAux_spec (all : List Val) (l : List Val) (b : Val) :
+    ∃ m, modeAux all l (some b) = some m ∧ count b all ≤ count m all ∧
+      (∀ v ∈ l, count v all ≤ count m all) ∧ (m = b ∨ m ∈ l) := by
+  induction l generalizing b with
+  | nil => exact ⟨b, rfl, le_refl _, by simp, Or.inl rfl⟩
+  | cons v l ih =>
+    simp only [modeAux]
+    by_cases h : count b all < count v all
+    · simp only [h, if_true]
+      obtain ⟨m, h1, h2, h3, h4⟩ := ih v
+      refine ⟨m, h1, by omega, ?_, ?_⟩
+      · intro x hx
+        rcases List.mem_cons.1 hx with rfl | hx
+        · exact h2
+        · exact h3 x hx
+      · rcases h4 with rfl | h4
+        · right; exact List.mem_cons_self
+        · right; exact List.mem_cons_of_mem _ h4
+    · simp only [h, if_false]
+      obtain ⟨m, h1, h2, h3, h4⟩ := ih b
+      refine ⟨m, h1, h2, ?_, ?_⟩
+      · intro x hx
+        rcases List.mem_cons.1 hx with rfl | hx
+        · omega
+        · exact h3 x hx
+      · rcases h4 with rfl | h4
+        · left; rfl
+        · right; exact List.mem_cons_of_mem _ h4
+
+theorem count_eq_zero_of_not_mem {v : Val} {l : List Val} (h : v ∉ l) : count v l = 0 := by
+  simp only [count, List.length_eq_zero_iff, List.filter_eq_nil_iff]
+  intro a ha hav
+  have : a = v := by simpa using hav
+  exact h (this ▸ ha)
+
+theorem mode_isMode {vs : List Val} {m : Val} (h : mode vs = some m) : IsMode vs m := by
+  cases vs with
+  | nil => simp [mode, modeAux] at h
+  | cons a l =>
+    simp only [mode, modeAux] at h
+    obtain ⟨m', h1, h2, h3, h4⟩ := modeAux_spec (a :: l) l a
+    rw [h1] at h
+    simp only [Option.some.injEq] at h
+    subst h
+    refine ⟨?_, ?_⟩
+    · rcases h4 with rfl | h4
+      · exact List.mem_cons_self
+      · exact List.mem_cons_of_mem _ h4
+    · intro v
+      by_cases hv : v ∈ a :: l
+      · rcases List.mem_cons.1 hv with rfl | hv
+        · exact h2
+        · exact h3 v hv
+      · rw [count_eq_zero_of_not_mem hv]; exact Nat.zero_le _
+
+theorem mode_isSome {vs : List Val} (h : vs ≠ []) : ∃ m, mode vs = some m := by
+  cases vs with
+  | nil => exact absurd rfl h
+  | cons a l =>
+    obtain ⟨m', h1, _⟩ := modeAux_spec (a :: l) l a
+    exact ⟨m', by simp only [mode, modeAux]; exact h1⟩
+
+/-- the non-missing (not `None`) values of a column -/
+abbrev present (w : List Val) : List Val := w.filter (fun v => !v.isNil)
+
+theorem getImp_sound {st : Stat} {w : List Val} {m : Val} (h : getImp st w = some m) :
+    ImpStat st (present w) m := by
+  cases st with
+  | mode => exact mode_isMode h
+  | mean =>
+    simp only [getImp] at h
+    split at h
+    · simp only [Option.map_eq_some_iff] at h
+      obtain ⟨q, hq, rfl⟩ := h
+      obtain ⟨h1, h2⟩ := mean_sound hq
+      exact ⟨h1, by rw [h2]⟩
+    · simp at h
+  | median =>
+    simp only [getImp] at h
+    split at h
+    · simp only [Option.map_eq_some_iff] at h
+      obtain ⟨q, hq, rfl⟩ := h
+      exact ⟨q, median_isMedian hq, rfl⟩
+    · simp at h
+
+theorem nums_ne_nil {vs : List Val} (hne : vs ≠ []) (hall : vs.all Val.isNum = true) : nums vs ≠ [] := by
+  cases vs with
+  | nil => exact absurd rfl hne
+  | cons a l =>
+    simp only [List.all_cons, Bool.and_eq_true] at hall
+    cases a <;> simp_all [nums, Val.isNum, Val.num?]
+
+theorem getImp_isSome {st : Stat} {w : List Val} (h : Imputable st w) : ∃ m, getImp st w = some m := by
+  obtain ⟨hne, hall⟩ := h
+  cases st with
+  | mode => exact mode_isSome hne
+  | mean =>
+    simp only at hall
+    obtain ⟨q, hq⟩ := mean_isSome (nums_ne_nil hne hall)
+    exact ⟨.num q, by simp [getImp, hall, hq]⟩
+  | median =>
+    simp only at hall
+    obtain ⟨q, hq⟩ := median_isSome (nums_ne_nil hne hall)
+    exact ⟨.num q, by simp [getImp, hall, hq]⟩
+
+theorem imputeCell_nonnil (imp : Option Val) (v : Val) (h : v ≠ .nil) : imputeCell imp v = v := by
+  cases v <;> simp_all [imputeCell]
+
+theorem imputeCell_nil_some (x : Val) : imputeCell (some x) .nil = x := rfl
+theorem imputeCell_nil_none : imputeCell none .nil = .nil := rfl
+
+/-! ### Impute: dense contexts -/
+
+theorem imputeDense_row (st : Stat) (ind : Bool) (u : Option Nat) (rows : List (List Val)) (first : List Val)
+    (hfirst : rows.head? = some first) (i : Nat) :
+    (imputeDense st ind u rows)[i]? = (rows[i]?).map (imputeDenseRow st ind first (window u rows)) := by
+  cases rows with
+  | nil => simp at hfirst
+  | cons f rest =>
+    simp only [List.head?_cons, Option.some.injEq] at hfirst
+    subst hfirst
+    simp only [imputeDense, List.getElem?_map]
+
+theorem imputeDenseRow_cell (st : Stat) (ind : Bool) (first : List Val) (win : List (List Val)) (row : List Val)
+    (k : Nat) (v : Val) (hv : row[k]? = some v) :
+    (imputeDenseRow st ind first win row)[k]? = some (imputeCell (denseImp st first win k) v) := by
+  have hk : k < row.length := by
+    by_contra hc
+    rw [List.getElem?_eq_none (by omega)] at hv
+    simp at hv
+  unfold imputeDenseRow
+  rw [List.getElem?_append_left (by simpa using hk)]
+  simp [List.getElem?_mapIdx, hv]
+
+theorem imputeDenseRow_length (st : Stat) (ind : Bool) (first : List Val) (win : List (List Val)) (row : List Val) :
+    (imputeDenseRow st ind first win row).length = row.length + (denseBins st ind first win).length := by
+  simp [imputeDenseRow]
+
+theorem imputeDenseRow_bit (st : Stat) (ind : Bool) (first : List Val) (win : List (List Val)) (row : List Val)
+    (j k : Nat) (hj : (denseBins st ind first win)[j]? = some k) :
+    (imputeDenseRow st ind first win row)[row.length + j]? = some (bit (row[k]? == some Val.nil)) := by
+  unfold imputeDenseRow
+  rw [List.getElem?_append_right (by simp)]
+  simp [List.getElem?_map, hj]
+
+theorem mem_denseBins (st : Stat) (ind : Bool) (first : List Val) (win : List (List Val)) (k : Nat) :
+    k ∈ denseBins st ind first win ↔
+      (ind = true ∧ k < first.length ∧ (denseImp st first win k).isSome = true ∧ (col k win).any Val.isNil = true) := by
+  unfold denseBins
+  cases ind with
+  | false => simp
+  | true => simp [List.mem_filter]
+
+theorem impDense_of_imputable (st : Stat) (first : List Val) (rows : List (List Val)) (u : Option Nat) (k : Nat)
+    (hfirst : rows.head? = some first) (hu : u ≠ some 0) (hk : k < first.length)
+    (himp : Imputable st (col k (window u rows))) : impDense st first k = true := by
+  cases st with
+  | mode => simpa [impDense] using hk
+  | mean | median =>
+    all_goals
+      simp only [impDense, potDense]
+      have hget : first[k]? = some first[k] := List.getElem?_eq_getElem hk
+      rw [hget]
+      simp only
+      by_contra hc
+      have hs : first[k].isStr = true := by
+        cases hv : first[k] <;> simp_all [Val.numOrNil, Val.isStr]
+      -- the first row lies in the window, so its string is among the non-missing window values
+      cases rows with
+      | nil => simp at hfirst
+      | cons f rest =>
+        simp only [List.head?_cons, Option.some.injEq] at hfirst
+        subst hfirst
+        have hwin : ∃ tl, window u (f :: rest) = f :: tl := by
+          cases u with
+          | none => exact ⟨rest, rfl⟩
+          | some n =>
+            cases n with
+            | zero => exact absurd rfl hu
+            | succ n => exact ⟨rest.take n, by simp [window]⟩
+        obtain ⟨tl, htl⟩ := hwin
+        have hmem : f[k] ∈ (col k (window u (f :: rest))).filter (fun v => !v.isNil) := by
+          rw [htl]
+          simp only [col, List.filterMap_cons, hget, List.mem_filter]
+          refine ⟨List.mem_cons_self, ?_⟩
+          cases hv : f[k] <;> simp_all [Val.isNil, Val.isStr]
+        have hall := himp.2
+        simp only at hall
+        have := List.all_eq_true.1 hall _ hmem
+        cases hv : f[k] <;> simp_all [Val.isNum, Val.isStr]
+
+/-- non-missing values are never changed and stay where they are -/
+theorem impute_dense_nonmissing_fixed' (st : Stat) (ind : Bool) (u : Option Nat) (rows : List (List Val))
+    (i k : Nat) (v : Val) (hv : denseCell rows i k = some v) (hnn : v ≠ .nil) :
+    denseCell (imputeDense st ind u rows) i k = some v := by
+  cases rows with
+  | nil => simp [denseCell] at hv
+  | cons f rest =>
+    simp only [denseCell, imputeDense_row st ind u (f :: rest) f rfl] at hv ⊢
+    cases hr : (f :: rest)[i]? with
+    | none => simp [hr] at hv
+    | some row =>
+      simp only [hr, Option.bind_some, Option.map_some] at hv ⊢
+      rw [imputeDenseRow_cell st ind f _ row k v hv, imputeCell_nonnil _ v hnn]
+
+/-- every missing value of an imputable feature is replaced by the statistic of the window -/
+theorem impute_dense_eq_spec' (st : Stat) (ind : Bool) (u : Option Nat) (rows : List (List Val)) (first : List Val)
+    (i k : Nat) (hfirst : rows.head? = some first) (hu : u ≠ some 0) (hk : k < first.length)
+    (hv : denseCell rows i k = some .nil)
+    (himp : Imputable st (col k (window u rows))) :
+    ∃ m, denseCell (imputeDense st ind u rows) i k = some m ∧ ImpStat st (present (col k (window u rows))) m := by
+  obtain ⟨m, hm⟩ := getImp_isSome himp
+  have hd : denseImp st first (window u rows) k = some m := by
+    simp [denseImp, impDense_of_imputable st first rows u k hfirst hu hk himp, hm]
+  refine ⟨m, ?_, getImp_sound hm⟩
+  simp only [denseCell, imputeDense_row st ind u rows first hfirst] at hv ⊢
+  cases hr : rows[i]? with
+  | none => simp [hr] at hv
+  | some row =>
+    simp only [hr, Option.bind_some, Option.map_some] at hv ⊢
+    rw [imputeDenseRow_cell st ind first _ row k .nil hv, hd]
+    rfl
+
+
+/-- the missingness indicators of a dense row: exactly one 0/1 feature per imputable column that has a
+missing value in the window, appended after the features, 1 iff the row's value there was missing -/
+theorem impute_dense_indicator' (st : Stat) (ind : Bool) (u : Option Nat) (rows : List (List Val)) (first row : List Val)
+    (i : Nat) (hfirst : rows.head? = some first) (hrow : rows[i]? = some row) :
+    ∃ out, (imputeDense st ind u rows)[i]? = some out ∧
+      out.length = row.length + (denseBins st ind first (window u rows)).length ∧
+      (∀ j k, (denseBins st ind first (window u rows))[j]? = some k →
+        out[row.length + j]? = some (bit (row[k]? == some Val.nil))) ∧
+      (∀ k, k ∈ denseBins st ind first (window u rows) ↔
+        (ind = true ∧ k < first.length ∧ (denseImp st first (window u rows) k).isSome = true ∧
+          (col k (window u rows)).any Val.isNil = true)) := by
+  refine ⟨imputeDenseRow st ind first (window u rows) row, ?_, imputeDenseRow_length _ _ _ _ _, ?_, ?_⟩
+  · rw [imputeDense_row st ind u rows first hfirst, hrow]; rfl
+  · intro j k hj; exact imputeDenseRow_bit st ind first _ row j k hj
+  · intro k; exact mem_denseBins st ind first _ k
+
+theorem impute_dense_no_indicator' (st : Stat) (u : Option Nat) (rows : List (List Val)) :
+    (imputeDense st false u rows).map List.length = rows.map List.length := by
+  cases rows with
+  | nil => rfl
+  | cons f rest =>
+    simp only [imputeDense, List.map_map]
+    apply List.map_congr_left
+    intro row _
+    simp [imputeDenseRow, denseBins]
+
+theorem impute_dense_length' (st : Stat) (ind : Bool) (u : Option Nat) (rows : List (List Val)) :
+    (imputeDense st ind u rows).length = rows.length := by
+  cases rows with
+  | nil => rfl
+  | cons f rest => simp [imputeDense]
+
+/-! ### Impute: scalar contexts -/
+
+theorem impute_scalar_spec' (st : Stat) (ind : Bool) (u : Option Nat) (rows : List Val) :
+    (ind && (window u rows).any Val.isNil) = false →
+      imputeScalar st ind u rows = .scalars (rows.map (imputeCell (getImp st (window u rows)))) := by
+  intro h; simp [imputeScalar, h]
+
+theorem impute_scalar_indicator' (st : Stat) (ind : Bool) (u : Option Nat) (rows : List Val) :
+    (ind && (window u rows).any Val.isNil) = true →
+      imputeScalar st ind u rows =
+        .pairs (rows.map (fun v => [imputeCell (getImp st (window u rows)) v, bit v.isNil])) := by
+  intro h; simp [imputeScalar, h]
+
+/-- a missing scalar context is replaced by the statistic of the window, everything else stays -/
+theorem imputeCell_spec (st : Stat) (w : List Val) (v : Val) :
+    (v ≠ .nil → imputeCell (getImp st w) v = v) ∧
+    (v = .nil → Imputable st w → ∃ m, imputeCell (getImp st w) v = m ∧ ImpStat st (present w) m) := by
+  refine ⟨imputeCell_nonnil _ v, ?_⟩
+  rintro rfl himp
+  obtain ⟨m, hm⟩ := getImp_isSome himp
+  exact ⟨m, by rw [hm]; rfl, getImp_sound hm⟩
+
+/-! ### Impute: sparse contexts -/
+
+theorem lookup_map_val_isSome {g : String → Val → Val} (c : SCtx) (k : String) :
+    ((c.map (fun kv => (kv.1, g kv.1 kv.2))).lookup k).isSome = (c.lookup k).isSome := by
+  rw [lookup_map_val]; cases c.lookup k <;> rfl
+
+theorem imputeSparse_row (st : Stat) (ind : Bool) (u : Option Nat) (rows : List SCtx) (first : SCtx)
+    (hfirst : rows.head? = some first) (i : Nat) :
+    (imputeSparse st ind u rows)[i]? = (rows[i]?).map (imputeSparseRow st ind first (window u rows)) := by
+  cases rows with
+  | nil => simp at hfirst
+  | cons f rest =>
+    simp only [List.head?_cons, Option.some.injEq] at hfirst
+    subst hfirst
+    simp only [imputeSparse, List.getElem?_map]
+
+theorem imputeSparseRow_cell (st : Stat) (ind : Bool) (first : SCtx) (win : List SCtx) (c : SCtx)
+    (k : String) (v : Val) (hv : c.lookup k = some v) :
+    (imputeSparseRow st ind first win c).lookup k = some (imputeCell (sparseImp st first win k) v) := by
+  unfold imputeSparseRow
+  rw [List.lookup_append]
+  rw [lookup_map_val (g := fun k v => imputeCell (sparseImp st first win k) v) c k, hv]
+  rfl
+
+theorem impute_sparse_cell' (st : Stat) (ind : Bool) (u : Option Nat) (rows : List SCtx) (first : SCtx)
+    (i : Nat) (k : String) (v : Val) (hfirst : rows.head? = some first) (hv : sparseCell rows i k = some v) :
+    sparseCell (imputeSparse st ind u rows) i k = some (imputeCell (sparseImp st first (window u rows) k) v) := by
+  simp only [sparseCell, imputeSparse_row st ind u rows first hfirst] at hv ⊢
+  cases hr : rows[i]? with
+  | none => simp [hr] at hv
+  | some c =>
+    simp only [hr, Option.bind_some, Option.map_some] at hv ⊢
+    exact imputeSparseRow_cell st ind first _ c k v hv
+
+theorem impute_sparse_nonmissing_fixed' (st : Stat) (ind : Bool) (u : Option Nat) (rows : List SCtx)
+    (i : Nat) (k : String) (v : Val) (hv : sparseCell rows i k = some v) (hnn : v ≠ .nil) :
+    sparseCell (imputeSparse st ind u rows) i k = some v := by
+  cases rows with
+  | nil => simp [sparseCell] at hv
+  | cons f rest =>
+    rw [impute_sparse_cell' st ind u (f :: rest) f i k v rfl hv, imputeCell_nonnil _ v hnn]
+
+theorem impute_sparse_eq_spec' (st : Stat) (ind : Bool) (u : Option Nat) (rows : List SCtx) (first : SCtx)
+    (i : Nat) (k : String) (hfirst : rows.head? = some first)
+    (hv : sparseCell rows i k = some .nil)
+    (hkey : impSparseKey st first (window u rows) k = true)
+    (himp : Imputable st (sparseCol k (window u rows))) :
+    ∃ m, sparseCell (imputeSparse st ind u rows) i k = some m ∧
+      ImpStat st (present (sparseCol k (window u rows))) m := by
+  obtain ⟨m, hm⟩ := getImp_isSome himp
+  refine ⟨m, ?_, getImp_sound hm⟩
+  rw [impute_sparse_cell' st ind u rows first i k .nil hfirst hv]
+  simp [sparseImp, hkey, hm, imputeCell]
+
+/-! ### Impute: window and lists of statistics -/
+
+theorem imputeDense_window' (st : Stat) (ind : Bool) (first : List Val) (w rest : List (List Val))
+    (hw : w.head? = some first) :
+    imputeDense st ind (some w.length) (w ++ rest) = (w ++ rest).map (imputeDenseRow st ind first w) := by
+  cases w with
+  | nil => simp at hw
+  | cons f w' =>
+    simp only [List.head?_cons, Option.some.injEq] at hw
+    subst hw
+    have : window (some (f :: w').length) (f :: w' ++ rest) = f :: w' := window_append' (f :: w') rest
+    simp only [List.cons_append, List.length_cons] at this ⊢
+    simp [imputeDense, this]
+
+theorem imputeDense_using_ge' (st : Stat) (ind : Bool) (n : Nat) (rows : List (List Val)) (h : rows.length ≤ n) :
+    imputeDense st ind (some n) rows = imputeDense st ind none rows := by
+  cases rows with
+  | nil => rfl
+  | cons f r =>
+    have ht : List.take n (f :: r) = f :: r := List.take_of_length_le h
+    simp only [imputeDense, window, ht]
+
+theorem imputeSparse_using_ge' (st : Stat) (ind : Bool) (n : Nat) (rows : List SCtx) (h : rows.length ≤ n) :
+    imputeSparse st ind (some n) rows = imputeSparse st ind none rows := by
+  cases rows with
+  | nil => rfl
+  | cons f r =>
+    have ht : List.take n (f :: r) = f :: r := List.take_of_length_le h
+    simp only [imputeSparse, window, ht]
+
+theorem imputeScalar_using_ge' (st : Stat) (ind : Bool) (n : Nat) (rows : List Val) (h : rows.length ≤ n) :
+    imputeScalar st ind (some n) rows = imputeScalar st ind none rows := by
+  unfold imputeScalar
+  rw [window_ge' n rows h]
+  rfl
+
+theorem envImpute_nil' (ind : Bool) (u : Option Nat) (c : Ctxs) : envImpute [] ind u c = c := rfl
+
+theorem envImpute_cons' (st : Stat) (stats : List Stat) (ind : Bool) (u : Option Nat) (c : Ctxs) :
+    envImpute (st :: stats) ind u c = envImpute stats ind u (imputeCtxs st ind u c) := rfl
+
+
+/-! ### sparse contexts agree with their dense embedding (absent key = 0) -/
+
+theorem embed_get (keys : List String) (j : Nat) (k : String) (hk : keys[j]? = some k) (c : SCtx) :
+    (embed keys c)[j]? = some (getD0 k c) := by
+  simp [embed, List.getElem?_map, hk]
+
+theorem col_embed (keys : List String) (j : Nat) (k : String) (hk : keys[j]? = some k) (ws : List SCtx) :
+    col j (ws.map (embed keys)) = ws.map (getD0 k) := by
+  induction ws with
+  | nil => rfl
+  | cons c l ih =>
+    simp only [col, List.map_cons, List.filterMap_cons, embed_get keys j k hk c] at ih ⊢
+    rw [ih]
+
+theorem numOrNil_eq_not_isStr (v : Val) : v.numOrNil = !v.isStr := by cases v <;> rfl
+
+theorem scale_sparse_dense_agree' (sd : List Rat → Rat) (cfg : Cfg) (rows : List SCtx) (first : SCtx)
+    (keys : List String) (i j : Nat) (k : String) (v : Val)
+    (hfirst : rows.head? = some first) (h0 : cfg.shift = .num 0)
+    (hk : keys[j]? = some k) (hv : sparseCell rows i k = some v)
+    (hocc : (window cfg.usingN rows).any (hasKey k) = true) :
+    ∃ outs, scaleSparse sd cfg rows = .ok outs ∧
+      sparseCell outs i k = denseCell (scaleDense sd cfg (rows.map (embed keys))) i j := by
+  obtain ⟨outs, h1, h2⟩ := scaleSparse_cell sd cfg rows first hfirst h0 i k
+  refine ⟨outs, h1, ?_⟩
+  have hf' : (rows.map (embed keys)).head? = some (embed keys first) := by
+    cases rows with
+    | nil => simp at hfirst
+    | cons f r => simp at hfirst; subst hfirst; rfl
+  rw [h2, scaleDense_cell sd cfg _ (embed keys first) hf', window_map, col_embed keys j k hk]
+  -- the input cell
+  have hcell : denseCell (rows.map (embed keys)) i j = some v := by
+    simp only [sparseCell] at hv
+    simp only [denseCell, List.getElem?_map]
+    cases hr : rows[i]? with
+    | none => simp [hr] at hv
+    | some c =>
+      simp only [hr, Option.bind_some] at hv
+      simp only [Option.map_some, Option.bind_some, embed_get keys j k hk c, getD0, hv]
+  rw [hcell, hv]
+  -- potential keys coincide
+  have hpot : potSparse first (window cfg.usingN rows) k = potDense (embed keys first) j := by
+    simp only [potSparse, hocc, Bool.true_and, potDense, embed_get keys j k hk first, getD0]
+    cases first.lookup k with
+    | none => rfl
+    | some x => simp [numOrNil_eq_not_isStr]
+  rw [hpot]
+
+/-! ### recorded findings: a sparse key that does not occur in the fitting window -/
+
+theorem scale_key_outside_window_witness :
+    let cfg : Cfg := ⟨.num 0, .num 2, some 1⟩
+    let rows : List SCtx := [[("a", .num 1)], [("b", .num 3)]]
+    ∀ sd : List Rat → Rat,
+      (∃ outs, scaleSparse sd cfg rows = .ok outs ∧ sparseCell outs 1 "b" = some (.num 3)) ∧
+      (∀ out, ScaleCellSpec sd cfg ((window cfg.usingN rows).map (getD0 "b")) (.num 3) out → out = .num 6) := by
+  intro cfg rows sd
+  refine ⟨⟨_, rfl, ?_⟩, ?_⟩
+  · simp [sparseCell, sparseRow, rows, cfg, potSparse, window, hasKey, applyOpt, List.lookup]
+  · intro out h
+    obtain ⟨s, f, hs, hf, rfl⟩ := h
+    obtain ⟨d, hd, hf⟩ := hf
+    simp only [cfg, ShiftStat, ScaleDen] at hs hd
+    subst hs hd
+    rw [hf]
+    norm_num
+
+theorem impute_key_outside_window_witness :
+    let rows : List SCtx := [[("a", .num 1)], [("b", .nil)]]
+    sparseCell (imputeSparse .mean false (some 1) rows) 1 "b" = some .nil ∧
+    (∀ m, ImpStat .mean (present (sparseCol "b" (window (some 1) rows))) m → m = .num 0) := by
+  intro rows
+  refine ⟨?_, ?_⟩
+  · simp [sparseCell, imputeSparse, imputeSparseRow, rows, sparseBins, sparseImp, impSparseKey, window, hasKey,
+      imputeCell, List.lookup]
+  · intro m h
+    obtain ⟨_, h2⟩ := h
+    have hcol : sparseCol "b" (window (some 1) rows) = [Val.num 0] := by
+      simp [rows, window, sparseCol, List.lookup, show ("b" == "a") = false from by decide]
+    rw [h2, hcol]
+    simp [present, nums, sumL, Val.isNil, Val.num?]
+
+
+/-! ### Impute: sparse indicators -/
+
+theorem hasKey_iff (k : String) (c : SCtx) : hasKey k c = true ↔ k ∈ c.map Prod.fst := by
+  induction c with
+  | nil => simp [hasKey, List.lookup]
+  | cons kv c ih =>
+    obtain ⟨a, b⟩ := kv
+    simp only [hasKey, List.lookup, List.map_cons, List.mem_cons] at ih ⊢
+    cases h : k == a with
+    | true =>
+      have : k = a := by simpa using h
+      simp [this]
+    | false =>
+      have : k ≠ a := by simpa using h
+      simp only [ih]
+      constructor
+      · intro h'; exact Or.inr h'
+      · rintro (h' | h')
+        · exact absurd h' this
+        · exact h'
+
+theorem mem_foldl_keys (k : String) (c : SCtx) (acc : List String) :
+    k ∈ c.foldl (fun a kv => if a.contains kv.1 then a else kv.1 :: a) acc ↔ k ∈ acc ∨ k ∈ c.map Prod.fst := by
+  induction c generalizing acc with
+  | nil => simp
+  | cons kv c ih =>
+    simp only [List.foldl_cons, List.map_cons, List.mem_cons]
+    rw [ih]
+    by_cases hc : acc.contains kv.1 = true
+    · simp only [hc, if_true]
+      have : kv.1 ∈ acc := by simpa using hc
+      constructor
+      · rintro (h | h)
+        · exact Or.inl h
+        · exact Or.inr (Or.inr h)
+      · rintro (h | h | h)
+        · exact Or.inl h
+        · subst h; exact Or.inl this
+        · exact Or.inr h
+    · simp only [hc]
+      simp only [Bool.false_eq_true, if_false, List.mem_cons]
+      constructor
+      · rintro ((h | h) | h)
+        · exact Or.inr (Or.inl h)
+        · exact Or.inl h
+        · exact Or.inr (Or.inr h)
+      · rintro (h | h | h)
+        · exact Or.inl (Or.inr h)
+        · exact Or.inl (Or.inl h)
+        · exact Or.inr h
+
+theorem mem_seenKeys (k : String) (cs : List SCtx) (acc : List String) :
+    k ∈ seenKeys cs acc ↔ k ∈ acc ∨ cs.any (hasKey k) = true := by
+  induction cs generalizing acc with
+  | nil => simp [seenKeys]
+  | cons c cs ih =>
+    simp only [seenKeys, List.any_cons, Bool.or_eq_true]
+    rw [ih, mem_foldl_keys, hasKey_iff]
+    tauto
+
+theorem mem_sparseBins (st : Stat) (ind : Bool) (first : SCtx) (win : List SCtx) (k : String) :
+    k ∈ sparseBins st ind first win ↔
+      (ind = true ∧ win.any (hasKey k) = true ∧ (sparseImp st first win k).isSome = true ∧
+        (win.filterMap (fun c => c.lookup k)).any Val.isNil = true) := by
+  unfold sparseBins
+  cases ind with
+  | false => simp
+  | true =>
+    simp only [if_true, List.mem_filter, mem_seenKeys, List.not_mem_nil, false_or, Bool.and_eq_true, true_and]
+
+/-- a sparse result row is the (imputed) context followed by one `<key>_is_missing` 0/1 entry per imputable key
+that occurs with a missing value in the window; 1 iff this row's value under the key was missing -/
+theorem impute_sparse_indicator' (st : Stat) (ind : Bool) (u : Option Nat) (rows : List SCtx) (first c : SCtx)
+    (i : Nat) (hfirst : rows.head? = some first) (hrow : rows[i]? = some c) :
+    (imputeSparse st ind u rows)[i]? = some
+      (c.map (fun kv => (kv.1, imputeCell (sparseImp st first (window u rows) kv.1) kv.2))
+        ++ (sparseBins st ind first (window u rows)).map
+            (fun k => (k ++ "_is_missing", bit (c.lookup k == some Val.nil)))) ∧
+    (∀ k, k ∈ sparseBins st ind first (window u rows) ↔
+      (ind = true ∧ (window u rows).any (hasKey k) = true ∧ (sparseImp st first (window u rows) k).isSome = true ∧
+        ((window u rows).filterMap (fun c => c.lookup k)).any Val.isNil = true)) := by
+  refine ⟨?_, fun k => mem_sparseBins st ind first _ k⟩
+  rw [imputeSparse_row st ind u rows first hfirst, hrow]
+  rfl
+
+
 end Coba.C11
